@@ -459,6 +459,17 @@ def findAllImpl (O : Oracle) (v : Variant) (q : Query) (limit : Option Nat) (ax 
     | _ => generalPath O v q limit ax
   else generalPath O v q limit ax                        -- :1143
 
+/-- A `SoupStrainer` object used directly: as the `name` argument of a `find_*` method (`_find_all`: `if isinstance(name,
+    ElementFilter): matcher = name` … `return matcher.find_all(generator, limit)` — no shortcut applies) or through
+    `SoupStrainer.find_all(generator, limit)` itself (filter.py `ElementFilter.find_all`). `q` = the arguments the strainer was
+    built from. -/
+def findAllStrainer (O : Oracle) (v : Variant) (q : Query) (limit : Option Nat) (ax : List Elem) : List Elem × List Call :=
+  generalPath O v q limit ax
+
+/-- `ElementFilter.find(generator)` (filter.py): the first element `filter` yields, or `None` -/
+def findStrainer (O : Oracle) (v : Variant) (q : Query) (ax : List Elem) : Option Elem :=
+  (generalPath O v q none ax).1.head?
+
 /-- the family's own argument list: `find_parents` has no `string` parameter (element.py:1022-1044). -/
 def famQuery (f : Family) (q : Query) : Query :=
   if f = .parents then { q with string := .atom .none } else q
@@ -686,5 +697,56 @@ def checkForward (name callee : String) (calleeParams args : List String) (kwarg
     callee == sp.callee && starKw && decide (args.length ≤ calleeParams.length)
       && decide ((bindArgs calleeParams args kwargs).map (·.1)).Nodup
       && sp.binding.all (fun kv => (bindArgs calleeParams args kwargs).lookup kv.1 == some kv.2)
+
+/-! ## Entry points by name: the canonical search methods and their deprecated aliases
+
+Every public `find_all`-style method is one of twelve canonical ones (`methodKind`) or a deprecated camelCase / BS3 alias
+(`findAllNext`, `fetchPreviousSiblings`, …) that resolves `getattr(self, new_name)` at call time (bs4/_deprecation.py).
+`aliasSpec` is the documented renaming table; `translate/parts_c10.py` reads the actual targets out of the closures of the
+live alias functions into `BS.Gen.Search.c10Aliases`, and `Props/C10.lean` checks the whole generated table. -/
+
+/-- a search method: plural or singular, over a fixed family or (`find_all`/`find`) descendants/children by `recursive` -/
+structure MethodKind where
+  plural : Bool
+  family : Option Family      -- `none`: chosen by the `recursive` argument
+  deriving Repr, DecidableEq
+
+def methodKind : String → Option MethodKind
+  | "find_all" => some ⟨true, none⟩
+  | "find" => some ⟨false, none⟩
+  | "find_all_next" => some ⟨true, some .nextElements⟩
+  | "find_next" => some ⟨false, some .nextElements⟩
+  | "find_all_previous" => some ⟨true, some .previousElements⟩
+  | "find_previous" => some ⟨false, some .previousElements⟩
+  | "find_next_siblings" => some ⟨true, some .nextSiblings⟩
+  | "find_next_sibling" => some ⟨false, some .nextSiblings⟩
+  | "find_previous_siblings" => some ⟨true, some .previousSiblings⟩
+  | "find_previous_sibling" => some ⟨false, some .previousSiblings⟩
+  | "find_parents" => some ⟨true, some .parents⟩
+  | "find_parent" => some ⟨false, some .parents⟩
+  | _ => none
+
+/-- the documented renamings (BS4 method names, and the BS3 `fetch*`/`findChild*` names), sorted by old name -/
+def aliasSpec : List (String × String) :=
+  [("fetchAllPrevious", "find_all_previous"), ("fetchNextSiblings", "find_next_siblings"), ("fetchParents", "find_parents"),
+   ("fetchPreviousSiblings", "find_previous_siblings"), ("findAll", "find_all"), ("findAllNext", "find_all_next"),
+   ("findAllPrevious", "find_all_previous"), ("findChild", "find"), ("findChildren", "find_all"), ("findNext", "find_next"),
+   ("findNextSibling", "find_next_sibling"), ("findNextSiblings", "find_next_siblings"), ("findParent", "find_parent"),
+   ("findParents", "find_parents"), ("findPrevious", "find_previous"), ("findPreviousSibling", "find_previous_sibling"),
+   ("findPreviousSiblings", "find_previous_siblings")]
+
+/-- what a method name searches: a canonical method, or the canonical method its alias is documented to replace -/
+def methodOf (name : String) : Option MethodKind :=
+  match methodKind name with
+  | some k => some k
+  | none => (aliasSpec.lookup name).bind methodKind
+
+/-- a search called by method name (canonical or alias) -/
+def findByName (O : Oracle) (v : Variant) (root : Node) (start : Nat) (method : String) (recursive : Bool) (q : Query)
+    (limit : Option Nat) : Option (List Elem × List Call) :=
+  (methodOf method).map fun k =>
+    let f := k.family.getD (if recursive then .descendants else .children)
+    if k.plural then findAllFam O v root start f q limit
+    else let r := findOneFam O v root start f q; (r.1.toList, r.2)
 
 end BS.Search
